@@ -616,6 +616,7 @@ func C05(c *core.Ctx) {
 	c.Floor("R5.1", "UnSetStrategyEnc call sites", nUnset, 1)
 
 	c05Keys(c, impls)
+	c05VirtualFollowsReal(c)
 
 	// ---- R5.3 sibling agreement on lock kind; mutators take the write lock
 	mutators := map[string]bool{"InsertNextHopEnc": true, "ClearNextHopsEnc": true, "RemoveNextHopEnc": true, "SetStrategyEnc": true, "UnSetStrategyEnc": true}
@@ -1240,4 +1241,63 @@ func c05Keys(c *core.Ctx, impls []*types.Named) {
 		})
 		c.Decide(fed, "R5.11", "name-hash-delimits-components", p.Pos(hi.Pos()), "the component hash input includes the length of the value", "Component.HashInto feeds the hasher type ‖ value without the value's length: the hash input of a name is not uniquely decodable (/a/b and the one-component name a‖<8-byte type>‖b hash alike), and the hash-table FIB, which keys entries by this hash alone, answers lookups for one name with the next hops of the other (and indexes past the shorter name)")
 	}
+}
+
+// c05VirtualFollowsReal — R5.13 "a strategy lookup returns the strategy of the longest prefix
+// that has one" (hash-table FIB): the virtual tables describe the names that are in the real
+// table. pruneTables takes a name out of a virtual node's name set, or drops the virtual node,
+// only behind the deletion of that name's real entry — an entry that stays (kept alive by its
+// strategy after its next hops are gone) stays reachable through its virtual node; otherwise
+// lookups for longer names fall through to a shorter prefix.
+func c05VirtualFollowsReal(c *core.Ctx) {
+	p := c.P
+	fn := c.Fn("R5.13", "fw/table", "FibStrategyHashTable", "pruneTables")
+	if fn == nil {
+		return
+	}
+	isRealDelete := func(in ssa.Instruction) bool { return isMapDelete(in, "realTable") }
+	n, bad := 0, ""
+	core.InstrsDeep(fn, func(in ssa.Instruction) {
+		cl, ok := isBuiltinCall(in, "delete")
+		if !ok || len(cl.Call.Args) != 2 {
+			return
+		}
+		m := core.Strip(cl.Call.Args[0])
+		virt := false
+		if _, okF := core.FieldOf(m, "virtTable"); okF {
+			virt = true
+		}
+		if _, okF := core.FieldOf(m, "virtTableNames"); okF {
+			virt = true
+		}
+		// the name set of one virtual node: a value looked up in virtTableNames
+		var lk *ssa.Lookup
+		switch x := m.(type) {
+		case *ssa.Lookup:
+			lk = x
+		case *ssa.Extract:
+			lk, _ = x.Tuple.(*ssa.Lookup)
+		}
+		if lk != nil {
+			if _, okF := core.FieldOf(lk.X, "virtTableNames"); okF {
+				virt = true
+			}
+		}
+		if !virt {
+			return
+		}
+		n++
+		// (path-sensitive in the `pruned := false; if … { delete(real); pruned = true };
+		// if !pruned { return }` idiom: the edges that contradict the flag are cut)
+		cut := core.FlagCuts(in.Parent(), []ssa.Instruction{in})
+		if in.Parent() != fn {
+			if !core.PrecedesDeep(fn, in, isRealDelete) {
+				bad = c.Pos(in)
+			}
+		} else if core.ReachInstr(fn, in, cut, isRealDelete) != nil {
+			bad = c.Pos(in)
+		}
+	})
+	c.Decide(bad == "", "R5.13", "virtual-tables-follow-the-real-table", p.Pos(fn.Pos()), fmt.Sprintf("%d removals from the virtual tables, each behind the deletion of the real entry", n), "pruneTables removes a name from the virtual tables at "+bad+" on a path on which its real entry was not deleted (the entry stays, e.g. kept by its strategy after its next hops were cleared): the entry is no longer reachable through its virtual node, and the strategy (or next-hop) lookup of a longer name falls through to a shorter prefix")
+	c.Floor("R5.13", "removals from the virtual tables in pruneTables", n, 3)
 }
